@@ -19,6 +19,7 @@ func init() {
 func c10(c *Ctx) {
 	p, R := c.Node(), c.R
 	R.Trust("go/types + go/ssa", "go-ethereum ethclient.TransactionReceipt returns (nil, ethereum.NotFound=\"not found\") for an unknown transaction and (nil, err) for transport errors", "the RPC node's head/receipt atomicity assumptions written in the code comments")
+	loopVarRule(c, p, "C10.loopvar", pkgEth)
 	R.Assumption("simulated chain histories are not explored; the rules are path-universal facts at the sinks")
 	run := must(p.Method(pkgEth, "Watcher", "Run"), "ethereum.(*Watcher).Run")
 	msgChan := must(p.FieldOf(pkgEth, "Watcher", "msgChan"), "ethereum.Watcher.msgChan")
@@ -221,7 +222,7 @@ func c10expConf(c *Ctx, fn *ssa.Function, sink ssa.Instruction, levelTerm string
 	p, R := c.Node(), c.R
 	var ph *ssa.Phi
 	eachInstr(fn, func(i ssa.Instruction) {
-		if x, ok := i.(*ssa.Phi); ok && x.Comment == "expectedConfirmations" && (x.Block().Dominates(sink.Block())) {
+		if x, ok := i.(*ssa.Phi); ok && facts.LocalName(x.Parent(), x.Comment) == "expectedConfirmations" && (x.Block().Dominates(sink.Block())) {
 			ph = x
 		}
 	})
